@@ -566,6 +566,11 @@ def fn(name: str, *args) -> RF:
         inner = x.as_atom()
         if inner is not None and inner.kind == 'fn' and (name, inner.name) in INVERSE and len(inner.args) == 1:
             return inner.args[0]
+        # conversions through one and the same unknown unit are mutual inverses: to_raw[U](from_raw[U](x)) = x
+        if inner is not None and inner.kind == 'fn' and len(inner.args) == 1 and '[' in name and \
+                {name.split('[')[0], inner.name.split('[')[0]} == {'to_raw', 'from_raw'} and \
+                name.split('[', 1)[1] == inner.name.split('[', 1)[1]:
+            return inner.args[0]
         if name in ODD and _negative_lead(x):
             return -fn(name, -x)
         if name in EVEN and _negative_lead(x):
